@@ -237,6 +237,12 @@ def run(ctx):
     for h in hists:
         ctx.count(describe(h), nontrivial(h))
     ctx.traces += len(hists)
+    # the lemma the scaled history rests on: two disjoint blocks in one database, one delete / one update over both = the union of the blocks' results
+    lem = ctx.tlc("MC_Compose10", "CONSTANT WordNA = {}\nCONSTANT Deviations = {}\nINIT Init\nNEXT Next\nCHECK_DEADLOCK FALSE\nINVARIANT InvCompose\n", expect="inv",
+                  label="block composition of create / delete / update", workers=2)
+    ctx.extra["block_compose_history"] = lem.violated or "holds"
+    if not lem.ok:
+        ctx.violation({"tlc": "MC_Compose10"}, "model:" + str(lem.violated), {"log": ctx.keep_log("MC_Compose10", lem.out)})
     # scale: one delete() / update() call over thousands of names
     for n in ([700, 2500] if thorough else [700]):
         bad, detail = scaled_history(ctx, n, ctx.path("c10_scaled.db"))
